@@ -99,7 +99,24 @@ impl Drop for Proc {
     }
 }
 
-fn free_port(host: &str) -> Option<u16> {
+/// A port on `host` that is free now, for a server about to be started there.  Not an ephemeral
+/// one (`:0`): the system hands the same ephemeral numbers out again within moments - to the
+/// probes of the other worker processes and to the harness's own outgoing connections - and the
+/// server would then find its port taken.  Instead every process walks its own slice of
+/// 10000..32016 (below the ephemeral range), probing each number by binding it.
+pub fn free_port(host: &str) -> Option<u16> {
+    static NEXT: std::sync::atomic::AtomicU32 = std::sync::atomic::AtomicU32::new(0);
+    // can the address be bound at all?
+    drop(TcpListener::bind(format!("{host}:0")).ok()?);
+    let slot = std::process::id() % 64;
+    for _ in 0..344 {
+        let n = NEXT.fetch_add(1, std::sync::atomic::Ordering::SeqCst);
+        let p = (10_000 + slot * 344 + n % 344) as u16;
+        if TcpListener::bind(format!("{host}:{p}")).is_ok() {
+            return Some(p);
+        }
+    }
+    // the slice is exhausted (something else lives there): fall back to an ephemeral number
     let l = TcpListener::bind(format!("{host}:0")).ok()?;
     l.local_addr().ok().map(|a| a.port())
 }
@@ -107,6 +124,8 @@ fn free_port(host: &str) -> Option<u16> {
 pub struct Launch {
     pub args: Vec<String>,
     pub env: Vec<(String, String)>,
+    /// the data directory, kept apart because its name need not be text: (by environment?, name)
+    pub dir_arg: Option<(bool, std::ffi::OsString)>,
     pub connect: Vec<SocketAddr>,
     pub cwd: Option<PathBuf>,
 }
@@ -132,7 +151,22 @@ fn plan_launch(bc: &BCase, dir: &Path, clients: &[Uuid]) -> Option<Launch> {
         };
         let port = match shared {
             Some(p) => p,
-            None => free_port(host)?,
+            None => {
+                // a number no earlier address of this launch uses (the probe sockets are closed
+                // again, so the system may hand the same number out twice - and `localhost` names
+                // one of the other addresses)
+                let mut p = free_port(host)?;
+                for _ in 0..20 {
+                    if !listen.iter().any(|l: &String| l.rsplit(':').next() == Some(p.to_string().as_str())) {
+                        break;
+                    }
+                    p = free_port(host)?;
+                }
+                if listen.iter().any(|l: &String| l.rsplit(':').next() == Some(p.to_string().as_str())) {
+                    return None;
+                }
+                p
+            }
         };
         listen.push(format!("{host}:{port}"));
         let c = if host == "localhost" { format!("127.0.0.1:{port}") } else { format!("{host}:{port}") };
@@ -153,32 +187,34 @@ fn plan_launch(bc: &BCase, dir: &Path, clients: &[Uuid]) -> Option<Launch> {
     }
     // the same directory, named in different ways
     let mut cwd = None;
-    let named: String = match bc.dir_form % 4 {
-        1 => format!("{}/", dir.to_string_lossy()),
+    let named: std::ffi::OsString = match bc.dir_form % 4 {
+        1 => {
+            let mut o = dir.as_os_str().to_owned();
+            o.push("/");
+            o
+        }
         2 => {
             cwd = dir.parent().map(|p| p.to_path_buf());
             if let Some(c) = &cwd {
                 let _ = std::fs::create_dir_all(c);
             }
-            format!("./{}", dir.file_name().map(|f| f.to_string_lossy().into_owned()).unwrap_or_default())
+            let mut o = std::ffi::OsString::from("./");
+            o.push(dir.file_name().unwrap_or_default());
+            o
         }
         3 => {
-            let link = dir.with_file_name(format!("{}-link", dir.file_name().map(|f| f.to_string_lossy().into_owned()).unwrap_or_default()));
+            let mut ln = dir.file_name().unwrap_or_default().to_owned();
+            ln.push("-link");
+            let link = dir.with_file_name(ln);
             let _ = std::fs::create_dir_all(dir);
             if !link.exists() {
                 let _ = std::os::unix::fs::symlink(dir, &link);
             }
-            link.to_string_lossy().into_owned()
+            link.into_os_string()
         }
-        _ => dir.to_string_lossy().into_owned(),
+        _ => dir.as_os_str().to_owned(),
     };
-    match bc.data_dir_src {
-        Src::Env => env.push(("DATA_DIR".into(), named)),
-        _ => {
-            args.push("--data-dir".into());
-            args.push(named);
-        }
-    }
+    let dir_arg = Some((bc.data_dir_src == Src::Env, named));
     if let Some((k, extra)) = bc.allow {
         let mut ids: Vec<String> = clients.iter().take(k as usize).map(|c| c.to_string()).collect();
         for e in 0..extra {
@@ -245,7 +281,7 @@ fn plan_launch(bc: &BCase, dir: &Path, clients: &[Uuid]) -> Option<Launch> {
         }
         Src::Env => env.push(("SNAPSHOT_DAYS".into(), bc.snapshot_days.1.to_string())),
     }
-    Some(Launch { args, env, connect, cwd })
+    Some(Launch { args, env, connect, cwd, dir_arg })
 }
 
 pub fn spawn(bin: &Path, l: &Launch) -> Result<Proc, String> {
@@ -256,6 +292,15 @@ pub fn spawn(bin: &Path, l: &Launch) -> Result<Proc, String> {
     }
     for (k, v) in &l.env {
         cmd.env(k, v);
+    }
+    match &l.dir_arg {
+        Some((true, d)) => {
+            cmd.env("DATA_DIR", d);
+        }
+        Some((false, d)) => {
+            cmd.arg("--data-dir").arg(d);
+        }
+        None => {}
     }
     if !l.env.iter().any(|(k, _)| k == "TZ") {
         // ... and in whatever time zone the host happens to be
@@ -370,8 +415,14 @@ pub fn check(bc: &BCase, st: &mut Stats) -> CheckResult {
     let dir = TempDir::new("c17");
     // the directory's own name: plain, with a blank, non-ASCII, characters that mean something in
     // URLs, or two levels that do not exist yet
-    let dname = ["data", "data", "da ta", "d\u{e4}-ta", "a%20b", "q?x=1", "h#1", "nested/two/levels"][(bc.salt / 2 % 8) as usize];
-    let dpath = dir.path().join(dname);
+    let dname = ["data", "data", "da ta", "d\u{e4}-ta", "a%20b", "q?x=1", "h#1", "nested/two/levels", "(not UTF-8)"][(bc.salt / 2 % 9) as usize];
+    let dpath = if dname == "(not UTF-8)" {
+        // a name in some legacy encoding: bytes that are not valid UTF-8 (Latin-1 e-acute)
+        use std::os::unix::ffi::OsStrExt;
+        dir.path().join(std::ffi::OsStr::from_bytes(b"donn\xe9es"))
+    } else {
+        dir.path().join(dname)
+    };
     st.label(&format!("c17:data-dir-name:{dname}"));
     let cfg = Cfg {
         snapshot_versions: if bc.snapshot_versions.0 == Src::Default { 100 } else { bc.snapshot_versions.1 },
